@@ -99,6 +99,29 @@ fn run_case(t: &mut Tape, c: &mut Case, huge: bool) -> Result<(), String> {
             expect_exact(&obs2, &want, "reading back the writer's output through a small buffer / short reads")
                 .map_err(|m| format!("{}\n  capacity {:?}, reads of {} bytes\n  ops: {}\n  bytes({}): {}", m, cap, chunk, render_ops(&ops), bytes.len(), short_bytes(&bytes)))?;
         }
+        // and the same document with some leaves handed over through write_raw(id, payload bytes): raw tags (ids outside the
+        // specification) are what that call is for, declared leaves given as their encoded payload are accepted just the same;
+        // the strict reader must return the same tags. (Drawn last from the tape so that recorded tapes keep their meaning.)
+        if t.chance(1, 3) {
+            let mut ops2 = ops.clone();
+            let n = rawify_ops(t, &mut ops2, 1, 2, false);
+            if n > 0 {
+                c.label("leaves_through_write_raw");
+                let mut w = Wr::<T>::new(RecDest::new());
+                for (k, op) in ops2.iter().enumerate() {
+                    let is_probe = matches!(op, WOp::Write(Flat::Leaf(_, p), WOpt::Width(wd)) if payload_len(p) == (1usize << (7 * *wd as usize)) - 1);
+                    match w.apply(op) {
+                        Ok(()) => {}
+                        Err(WErr::TagSize(_)) if is_probe => {}
+                        Err(e) => return Err(format!("writer rejected call #{} {} of a conformant sequence (leaves through write_raw): {:?}\n  ops: {}", k, op.short(), e, render_ops(&ops2))),
+                    }
+                }
+                let bytes2 = w.finish().map_err(|e| format!("flush failed: {:?}\n  ops: {}", e, render_ops(&ops2)))?;
+                let obs3 = read_all::<T>(&bytes2, &cfg);
+                c.checks += want.len() as u64;
+                expect_exact(&obs3, &want, "reading back the writer's output (some leaves written with write_raw)").map_err(|m| format!("{}\n  ops: {}\n  bytes({}): {}", m, render_ops(&ops2), bytes2.len(), short_bytes(&bytes2)))?;
+            }
+        }
         Ok(())
     })
 }
@@ -176,7 +199,7 @@ pub fn run(rc: &mut RunCtx) {
     if !rc.quick() {
         rc.run_pt(STAGES[1], 1_500, (96, 400));
     }
-    for l in ["unknown_size", "boundary_len", "explicit_width", "has_full", "raw_tags", "spec_macro_derived", "depth3plus", "global_element", "reserved_width_probe"] {
+    for l in ["unknown_size", "boundary_len", "explicit_width", "has_full", "raw_tags", "spec_macro_derived", "depth3plus", "global_element", "reserved_width_probe", "leaves_through_write_raw"] {
         rc.require_label("roundtrip", l, 10_000);
     }
     rc.require_label("roundtrip", "unknown_nested", 5_000);
